@@ -2856,6 +2856,15 @@ class Order:
         if descending is None:
             descending = False
 
+        # all markers have to be at the top of the expression tree
+        for node in expr.iter_subtree_postorder():
+            if isinstance(node, ColFn) and isinstance(node.op, Marker):
+                raise TypeError(
+                    f"invalid usage of `{node.op.name}` in a column expression.\n"
+                    "note: Ordering markers have to be at the top of the expression tree "
+                    "(i.e. cannot be nested inside a column function)."
+                )
+
         return Order(expr, descending, nulls_last)
 
     def ast_repr(self, depth: int = -1):
